@@ -369,7 +369,58 @@ func (s *Fn) lenOfX(x ssa.Value) Lin {
 // condFacts returns the facts implied by cond == val.
 func (s *Fn) condFacts(cond ssa.Value, val bool) (fs []Lin, dq []Lin) {
 	switch c := cond.(type) {
+	case *ssa.Phi:
+		// a named `a && b` (all other edges constant false, the condition holds) or `a || b` (all other edges
+		// constant true, the condition fails): the one computed edge decided, and the branch that leads to it was taken
+		var comp ssa.Value
+		var from *ssa.BasicBlock
+		for i, e := range c.Edges {
+			if k, ok := e.(*ssa.Const); ok && k.Value != nil && k.Value.Kind() == constant.Bool && constant.BoolVal(k.Value) != val {
+				continue
+			}
+			if comp != nil {
+				return
+			}
+			comp, from = e, c.Block().Preds[i]
+		}
+		if comp == nil || comp == cond {
+			return
+		}
+		fs, dq = s.condFacts(comp, val)
+		for d := from; d != nil && d != c.Block().Idom(); d = d.Idom() {
+			if len(d.Preds) == 1 {
+				f2, q2 := s.edgeFacts(d.Preds[0], d)
+				fs = append(fs, f2...)
+				dq = append(dq, q2...)
+			}
+		}
+		return
 	case *ssa.BinOp:
+		// uint(a) <= uint(b) (or !(uint(a) > uint(b))) with b a length: one unsigned comparison for 0 <= a <= b
+		if cx, ok := c.X.(*ssa.Convert); ok {
+			if cy, ok := c.Y.(*ssa.Convert); ok && isInt(cx.X.Type()) && isInt(cy.X.Type()) {
+				_, ux := intWidth(cx.Type())
+				_, uy := intWidth(cy.Type())
+				_, sx := intWidth(cx.X.Type())
+				_, sy := intWidth(cy.X.Type())
+				bx, _ := intWidth(cx.Type())
+				ax, _ := intWidth(cx.X.Type())
+				if ux && uy && !sx && !sy && bx == ax {
+					a, b := s.canon(cx.X), s.canon(cy.X)
+					holdsLE := (c.Op == token.LEQ && val) || (c.Op == token.GTR && !val)
+					holdsLT := (c.Op == token.LSS && val) || (c.Op == token.GEQ && !val)
+					if (holdsLE || holdsLT) && s.syntacticNonNeg(b) {
+						fs = append(fs, le(konst(0), a))
+						if holdsLE {
+							fs = append(fs, le(a, b))
+						} else {
+							fs = append(fs, lt(a, b))
+						}
+						return
+					}
+				}
+			}
+		}
 		if !isInt(c.X.Type()) {
 			if isStr(c.X.Type()) {
 				if k, ok := c.Y.(*ssa.Const); ok && k.Value != nil && constant.StringVal(k.Value) == "" {
